@@ -59,7 +59,7 @@ def gen_values(rng):
     if r < 0.7:
         return {"kind": "list", "v": [rng.randint(0, 9) for _ in range(n)]}
     if r < 0.85:
-        return {"kind": "tuple", "v": [rng.choice(["a", "b", "c", "d"]) for _ in range(n)]}
+        return {"kind": "ntuple" if rng.random() < 0.2 else "tuple", "v": [rng.choice(["a", "b", "c", "d"]) for _ in range(n)]}
     return {"kind": "range", "v": n}
 
 
@@ -78,6 +78,9 @@ def decode_values(spec, oneshot=True):
         return list(v)
     if k == "tuple":
         return tuple(v)
+    if k == "ntuple":
+        from .c14 import _ntuple
+        return _ntuple(list(v))        # a tuple with named fields is a tuple: a collection of its elements
     if k == "range":
         return range(int(v))
     raise ValueError(k)
